@@ -41,6 +41,14 @@ for ev in hist:
             out.append(["dup", names])   # canonical: the set order of the message is not part of the behaviour
         except Exception as ex:
             out.append(["error", type(ex).__name__ + ": " + str(ex)[:200]])
+    elif ev[0] == "program_wd":     # a Program constructed with the (rarely used) working_dir parameter
+        try:
+            p = Program(libraries=tuple(ev[1]), working_dir=os.path.join(os.path.dirname(libdir), ev[2]))
+            out.append(["ok", sorted([k, v.__module__] for k, v in p.command_library.items())])
+        except MPilotError as ex:
+            out.append(["dup", [str(ex)[:100]]])
+        except Exception as ex:
+            out.append(["error", type(ex).__name__])
     elif ev[0] == "touch":          # the cause of an import failure is repaired (a settings file appears)
         open(os.path.join(libdir, ev[1]), "w").close()
         out.append(["touched"])
